@@ -1317,6 +1317,14 @@ func (vc *VC) contractEffects(ct *Contract, li *loopInfo) {
 		switch {
 		case m == "heap":
 			li.allHeap = true
+		case strings.HasPrefix(m, "*"):
+			// pointee of a non-struct pointer: all generic pointee heaps (the element sort is not known here)
+			for k := range vc.heapSort {
+				if strings.HasPrefix(k, "ptr:") {
+					li.heapKeys[k] = true
+					li.heapUnknown[k] = true
+				}
+			}
 		case m == "alloc":
 		case strings.HasPrefix(m, "ghost."):
 			li.ghosts[m[6:]] = true
